@@ -1262,9 +1262,18 @@ theorem doc_assignment_old_counterexample :
 
 /-! ### docutils' `splitlines()` line structure -/
 
-/-- the cleaned docstring contains none of U+001C–1E, U+0085, U+2028, U+2029 -/
-def noExtraBreaksClean (doc : List Char) : Bool :=
-  (cleandocLines doc).all fun l => (l.filter isExtraBreak).length == 0
+theorem filter_blankExtraBreaks (l : List Char) : ((blankExtraBreaks l).filter isExtraBreak).length = 0 := by
+  induction l with
+  | nil => simp [blankExtraBreaks]
+  | cons c cs ih =>
+    have hsp : isExtraBreak ' ' = false := by decide
+    simp only [blankExtraBreaks, List.map_cons] at ih ⊢
+    by_cases h : isExtraBreak c = true
+    · simp only [h, if_true, List.filter_cons, hsp]
+      simpa using ih
+    · have h' : isExtraBreak c = false := by simpa using h
+      simp only [h', Bool.false_eq_true, if_false, List.filter_cons]
+      simpa using ih
 
 theorem sum_take_zero (ls : List (List Char)) (k : Nat)
     (h : ∀ l ∈ ls, (l.filter isExtraBreak).length = 0) :
@@ -1278,34 +1287,44 @@ theorem sum_take_zero (ls : List (List Char)) (k : Nat)
       simp only [List.take_succ_cons, List.map_cons, List.sum_cons]
       rw [h l (by simp), ih k (fun x hx => h x (List.mem_cons_of_mem _ hx))]
 
-/-- Every `reported_line_*` theorem above speaks about `reportedLine`; it is what pydoctor prints
-(`reportedLineS`) **provided the cleaned docstring has no extra `splitlines()` boundary** —
-the hypothesis all reStructuredText / google / numpy statements need in addition. -/
-theorem reportedLineS_eq_partial (fmt : Fmt) (sl : Nat) (doc : List Char) (ln : Int) (im : Bool)
-    (c : Construct) (h : noExtraBreaksClean doc = true) :
+/-- **reportedLineS_eq** (full; holds since pydoctor ce72216): with the extra `splitlines()`
+boundaries blanked before docutils sees the text, docutils' line structure is the `'\n'` structure:
+every `reported_line_*` theorem about `reportedLine` speaks about what pydoctor prints, for every
+docstring and every format. -/
+theorem reportedLineS_eq (fmt : Fmt) (sl : Nat) (doc : List Char) (ln : Int) (im : Bool) (c : Construct) :
     reportedLineS fmt sl doc ln im c = reportedLine fmt sl doc ln im c := by
+  have hz : extraBreaksIn ((cleandocLines doc).map blankExtraBreaks) (c.raw - dropped doc) = 0 := by
+    apply sum_take_zero
+    intro l hl
+    obtain ⟨l', _, rfl⟩ := List.mem_map.1 hl
+    exact filter_blankExtraBreaks l'
+  simp only [reportedLineS, hz]
+  cases reportedLine fmt sl doc ln im c <;> simp [shiftLine]
+
+/-- the cleaned docstring contains none of U+001C–1E, U+0085, U+2028, U+2029 -/
+def noExtraBreaksClean (doc : List Char) : Bool :=
+  (cleandocLines doc).all fun l => (l.filter isExtraBreak).length == 0
+
+/-- historical (before ce72216): equality only for docstrings without such characters -/
+theorem reportedLineSOld_eq_partial (fmt : Fmt) (sl : Nat) (doc : List Char) (ln : Int) (im : Bool)
+    (c : Construct) (h : noExtraBreaksClean doc = true) :
+    reportedLineSOld fmt sl doc ln im c = reportedLine fmt sl doc ln im c := by
   have hz : extraBreaksBefore doc (c.raw - dropped doc) = 0 := by
     apply sum_take_zero
     intro l hl
     have := (List.all_eq_true.1 h) l hl
     simpa using this
-  simp only [reportedLineS, hz]
+  simp only [reportedLineSOld, hz]
   cases reportedLine fmt sl doc ln im c <;> simp [shiftLine]
 
-/-- epytext splits on `'\n'` only: no hypothesis needed -/
-theorem reportedLineS_epytext (sl : Nat) (doc : List Char) (ln : Int) (im : Bool) (c : Construct) :
-    reportedLineS .epytext sl doc ln im c = reportedLine .epytext sl doc ln im c := by
-  simp only [reportedLineS]
-  cases reportedLine .epytext sl doc ln im c <;> simp [shiftLine]
-
-/-- `"""⏎    a<U+2028>b⏎⏎    :foo: bar⏎    """` on line 2: the field on physical line 5 is reported
-on line 6 in reStructuredText (and on 5 in epytext). -/
-theorem reportedLineS_counterexample :
+/-- `"""⏎    a<U+2028>b⏎⏎    :f: x⏎    """` on line 2: the field on physical line 5 was reported on
+line 6 in reStructuredText; now on 5. -/
+theorem reportedLineSOld_counterexample :
     let doc := ['\n', ' ', ' ', ' ', ' ', 'a', Char.ofNat 0x2028, 'b', '\n', '\n', ' ', ' ', ' ', ' ', ':', 'f', ':', ' ', 'x', '\n', ' ', ' ', ' ', ' ']
     noExtraBreaksClean doc = false ∧ noOverIndent doc = true ∧
-      reportedLineS .rst 2 doc 1 false ⟨.unknownField, 3, 0⟩ = .num 6 ∧
-      reportedLine .rst 2 doc 1 false ⟨.unknownField, 3, 0⟩ = .num 5 ∧
-      reportedLineS .epytext 2 doc 1 false ⟨.unknownField, 3, 0⟩ = .num 5 := by decide
+      reportedLineSOld .rst 2 doc 1 false ⟨.unknownField, 3, 0⟩ = .num 6 ∧
+      reportedLineS .rst 2 doc 1 false ⟨.unknownField, 3, 0⟩ = .num 5 ∧
+      reportedLine .rst 2 doc 1 false ⟨.unknownField, 3, 0⟩ = .num 5 := by decide
 
 /-! ### `versionadded` / `versionchanged` / `deprecated`: a reference in the directive's argument -/
 
@@ -1336,10 +1355,14 @@ theorem section_title_xref_offset (i j : Int) (hi : 0 ≤ i) :
   have h : i + 1 + 1 ≠ 0 := by omega
   simp [sectionTitleXrefOffset, docutilsBase, getLineno, truthy, firstParentLineno, h]
 
-/-- the second report made while the table of contents is rendered: the docstring's first line -/
-theorem toc_xref_offset : tocXrefOffset = 0 := by decide
+/-- **toc_does_not_report** (holds since fcb5e8a): rendering the table of contents reports nothing,
+however many references its titles hold -/
+theorem toc_does_not_report (titleRefs : List Int) : tocReports titleRefs = [] := rfl
+
+/-- historical (before fcb5e8a): a second report with offset 0, the docstring's first line -/
+theorem toc_xref_offset_old : tocXrefOffsetOld = 0 := by decide
 
 theorem section_title_counterexample :
-    sectionTitleXrefOffset docutilsBase 4 0 = 5 ∧ tocXrefOffset = 0 := by decide
+    sectionTitleXrefOffset docutilsBase 4 0 = 5 := by decide
 
 end Lineno
